@@ -28,6 +28,10 @@ CHECKS = {
                 technique="explicit-state BFS over the real broker across host/proxy layouts; accounting invariant on every state, refusal/two-host/replacement-host oracles on every edge, panics caught",
                 text="Every reachable state (bounded depth) of every layout in the configuration list is checked with the broker's own check_metadata plus an independent membership/free-pool accounting; every allocation edge is checked for atomic refusal, two-host chunks and replacement host choice.",
                 note=BROKER_NOTE),
+    "C18": dict(engine="quorummc", cat="model_checking", ref="3/C18",
+                technique="explicit-state BFS over the real broker failure-report API with snapshot-injected report ages, compared step by step with a reference model (address -> reporter -> age class)",
+                text="All sequences (bounded depth, two start states per configuration) of reports, ageing steps, listings, registrations, removals and failed-marks for quorum 1..4 x ttl values; after every step the listing served by the real broker is compared with the reference model (listed => registered and >= quorum fresh distinct reporters; expired discarded; re-registration clears).",
+                note="Report ages are injected by rewriting timestamps in the metadata snapshot (wide 100 s margins, per-step wall time asserted); only the 'only if' direction stated by the property is judged. Trusted: reference model in quorummc.rs."),
 }
 
 NOT_YET = {
